@@ -88,6 +88,16 @@ def run(scenario, preemptions=None, choices=None, step_limit=60000,
     Clock.pause_for, Clock.wait_until = pause_for, wait_until
     Clock.fire, Clock.reset = fire, reset
 
+    # which agent a stop request is handed to (delegating, no change): the
+    # controller picks it under its lock, a caller cannot observe that
+    # choice and the call in one step
+    original_request_stop = job_control.Agent.request_stop
+
+    def request_stop(self, *args, **kwargs):
+        scheduler.record('stop-delivered', getattr(self, 'name', None))
+        return original_request_stop(self, *args, **kwargs)
+    job_control.Agent.request_stop = request_stop
+
     result = Run()
     result.sched = scheduler
     result.world = world
@@ -216,6 +226,7 @@ def run(scenario, preemptions=None, choices=None, step_limit=60000,
     finally:
         for name, fn in originals.items():
             setattr(Clock, name, fn)
+        job_control.Agent.request_stop = original_request_stop
     return result
 
 
